@@ -4,6 +4,7 @@ from lib import pipeline
 LEVEL = "proof"
 MODEL_FILES = ["Model/SerdeM.v", "Model/SerdeIO.v", "Model/GraphM.v", "Model/StableM.v", "Model/SerdeGM.v", "Model/GraphMapM.v"]
 THEOREMS = []
+EXTRA_PROPS = ["C17b"]
 STREAMS = [("C17g", 1200, 40000), ("C17s", 1200, 40000), ("C17m", 1500, 40000)]
 SHARD = 1500
 RELEASE_TOO = True
